@@ -376,7 +376,7 @@ func (e *Explorer) expand(res *RunResult, it *workItem, sol *sym.Solver) {
 		for k, n := range names {
 			vars[k] = res.St.Vars[n]
 		}
-		pr := sym.NewPrinter("t")
+		pr := sym.NewPrinter("t!")
 		var sb strings.Builder
 		for _, c := range append(append([]*sym.Term{}, rel...), goal...) {
 			r := pr.Ref(c)
